@@ -25,3 +25,84 @@ package das
 //@   loop 1: hint len(workers) >= len(head(workers)) && forall k int :: 0 <= k && k < len(head(workers)) ==> workers[k] == head(workers[k])
 //@   loop 1: hint (stats.Workers[rangeindex].JobType == catchupJob || (stats.Workers[rangeindex].JobType == recentJob && stats.Workers[rangeindex].To < sampleFrom)) ==> len(workers) == len(head(workers)) + 1 && workers[len(workers)-1].From == stats.Workers[rangeindex].Curr && workers[len(workers)-1].To == stats.Workers[rangeindex].To
 //@   loop 1: invariant forall j int :: 0 <= j && j <= rangeindex && (stats.Workers[j].JobType == catchupJob || (stats.Workers[j].JobType == recentJob && stats.Workers[j].To < sampleFrom)) ==> (exists k int :: 0 <= k && k < len(workers) && workers[k].From == stats.Workers[j].Curr && workers[k].To == stats.Workers[j].To)
+
+// ---------------------------------------------------------------------------------------------
+// C04: the coordinator hands every job it creates to a worker. Creating a job advances the catch-up
+// cursor (or moves a height from failed to inRetry), so a job that is created and then dropped loses
+// its heights. Ghost token $PendingJob: set by the job constructors, consumed by runWorker; the
+// coordinator loop holds no pending job at its head.
+
+//@ pure func csSame(a coordinatorState, b coordinatorState) bool = a.samplingRange == b.samplingRange && a.inProgress == b.inProgress && a.failed == b.failed && a.inRetry == b.inRetry && a.networkHead == b.networkHead
+
+//@ func (*coordinatorState).newJob
+//@   property C04
+//@   modifies s
+//@   ensures result.jobType == jobType && result.from == from && result.to == to && result.id == s.nextJobID
+//@   ensures csSame(deref(s), old(deref(s))) && s.next == old(s.next)
+//@   effect $PendingJob := true
+
+// recentJob: the cursor moves past the head only when it was exactly at it.
+//@ func (*coordinatorState).recentJob
+//@   property C04
+//@   modifies s
+//@   assume header.Height() < 18446744073709551615
+//@   ensures result.jobType == recentJob && result.from == header.Height() && result.to == header.Height() && result.header == header
+//@   ensures csSame(deref(s), old(deref(s)))
+//@   ensures old(s.next) == header.Height() ==> s.next == old(s.next) + 1
+//@   ensures old(s.next) != header.Height() ==> s.next == old(s.next)
+//@   effect $PendingJob := true
+
+// catchupJob: consecutive catch-up jobs tile the heights without a gap and never pass the head.
+//@ func (*coordinatorState).catchupJob
+//@   property C04
+//@   modifies s
+//@   requires s.samplingRange > 0
+//@   assume s.next + s.samplingRange < 18446744073709551616
+//@   ensures !found ==> old(s.next) > s.networkHead && s.next == old(s.next)
+//@   ensures found ==> next.jobType == catchupJob && next.from == old(s.next) && next.from <= next.to && next.to <= s.networkHead && s.next == next.to + 1
+//@   ensures found ==> next.to - next.from < s.samplingRange
+//@   ensures csSame(deref(s), old(deref(s)))
+//@   effect $PendingJob := $PendingJob || found
+
+//@ func (*coordinatorState).putInProgress
+//@   property C04
+//@   modifies s.inProgress
+//@   ensures has(s.inProgress, jobID)
+
+// retryJob: a failed height that may be retried moves to inRetry (never dropped).
+//@ func (*coordinatorState).retryJob
+//@   property C04
+//@   modifies s
+//@   modifies s.failed
+//@   modifies s.inRetry
+//@   ensures found ==> next.jobType == retryJob && next.from == next.to && has(s.inRetry, next.from)
+//@   ensures !found ==> s.next == old(s.next)
+//@   ensures csSame(deref(s), old(deref(s))) && s.next == old(s.next)
+//@   effect $PendingJob := $PendingJob || found
+
+//@ func (*coordinatorState).nextJob
+//@   property C04
+//@   modifies s
+//@   modifies s.failed
+//@   modifies s.inRetry
+//@   requires s.samplingRange > 0
+//@   ensures csSame(deref(s), old(deref(s)))
+//@   effect $PendingJob := $PendingJob || found
+
+//@ func (*samplingCoordinator).runWorker
+//@   property C04
+//@   modifies sc
+//@   modifies sc.state.inProgress
+//@   requires $PendingJob
+//@   ensures has(sc.state.inProgress, j.id)
+//@   ensures csSame(sc.state, old(sc.state)) && sc.state.next == old(sc.state.next) && sc.concurrencyLimit == old(sc.concurrencyLimit)
+//@   effect $PendingJob := false
+
+//@ func (*samplingCoordinator).run
+//@   property C04
+//@   noframe
+//@   requires !$PendingJob
+//@   requires sc.state.samplingRange > 0
+//@   loop 1: invariant !$PendingJob && sc.state.samplingRange > 0
+//@   loop 2: invariant !$PendingJob && sc.state.samplingRange > 0
+//@   loop 3: invariant !$PendingJob && sc.state.samplingRange > 0
